@@ -143,9 +143,72 @@ def gen_retime_case(seed: int, rnd: random.Random) -> SchedCase:
     return SchedCase(seed, executor, epoch, lines, specs, meta, tzname)
 
 
+def gen_recurring_case(seed: int, rnd: random.Random) -> SchedCase:
+    """C03: undisturbed recurring jobs (time of day with any DST policy, interval, groups, filters) followed over days
+    to weeks across a clock change / month end / year end of the system zone; the loop keeps up (sleep only)"""
+    from gen_prod import ZoneCtx, gen_producer
+    from tz import SHAPE_ZONES
+    from common import NS_DAY, NS_HOUR, NS_MIN, NS_S
+    zc = ZoneCtx(rnd.choice(SHAPE_ZONES))
+    r = rnd.random()
+    if zc.trans and r < 0.7:
+        t, _, _ = rnd.choice(zc.trans)
+        epoch = (t - rnd.randint(1, 4) * 86400 + rnd.randint(0, 86399)) * NS_S
+    elif r < 0.85:
+        y = rnd.randint(2001, 2036)
+        import datetime as dtm
+        epoch = int((dtm.datetime(y, 12, 29, rnd.randint(0, 23)) - dtm.datetime(1970, 1, 1)).total_seconds()) * NS_S
+    else:
+        epoch = rnd.randrange(946_684_800, 2_100_000_000) * NS_S
+    epoch += rnd.choice([0, 0, 123_456_000])
+    executor = rnd.choice(['sync', 'async'])
+    lines: list[str] = []
+    specs: dict[int, tuple] = {}
+
+    def emit(x: str) -> None:
+        lines.append('op ' + x)
+    def snap(p):
+        """the virtual event loop works on the microsecond grid (float timer deadlines): no sub-microsecond parts"""
+        k = p[0]
+        if k == 'time':
+            return ('time', p[1] // 1000 * 1000, p[2], p[3], p[4])
+        if k == 'interval':
+            return ('interval', None if p[1] is None else p[1] // 1000 * 1000, p[2], p[3])
+        return ('group', p[1], [snap(x) for x in p[2]])
+    epoch = epoch // 1000 * 1000
+    n = rnd.randint(1, 3)
+    for h in range(1, n + 1):
+        p = snap(gen_producer(rnd, zc, epoch, rnd.randint(1, 2), filters=0.3, ops=('group',)))
+        specs[h] = p
+        emit(f'create {h} - (at {prod_sx(p)}) - -')
+        emit('yield')
+        emit(f'cbreg u {h} 0')
+        emit(f'cbreg f {h} 0')
+    total = rnd.choice([3, 5, 8, 14]) * NS_DAY
+    done = 0
+    paused: set[int] = set()
+    while done < total:
+        d = rnd.choice([6 * NS_HOUR, 12 * NS_HOUR, NS_DAY, 36 * NS_HOUR, 90 * NS_MIN])
+        emit(f'sleep {d}')
+        done += d
+        if rnd.random() < 0.08:
+            h = rnd.randint(1, n)
+            if h in paused:
+                emit(f'resume {h}')
+                paused.discard(h)
+            else:
+                emit(f'pause {h}')
+                paused.add(h)
+            emit('yield')
+    meta = {'executor': executor, 'ops': len(lines), 'jobs': n, 'tz': zc.name, 'scenario': 'recurring'}
+    return SchedCase(seed, executor, epoch, lines, specs, meta, zc.name)
+
+
 def gen_sched_case(seed: int, max_ops: int = 40, max_jobs: int = 6, *, failures: bool = True,
                    kinds=('once', 'countdown', 'at'), focus: str | None = None) -> SchedCase:
     rnd = random.Random(seed)
+    if focus == 'C03':
+        return gen_recurring_case(seed, rnd)
     if focus in (None, 'C08', 'C09', 'C02') and rnd.random() < 0.3:
         return gen_retime_case(seed, rnd)
     p_create, p_time, p_enable, p_cb = PROFILES.get(focus, PROFILES[None])
